@@ -683,6 +683,12 @@ def _after_key_violation(obs, got, want, where):
     obs.violation(sig, f"{where}: after {_norm(got)!r}, the response's after_key is {want!r}")
 
 
+_PRIME_RESPONSE = json.dumps({"took": 1, "timed_out": False, "hits": {"total": {"value": 3, "relation": "eq"}, "hits": []},
+                              "aggregations": {"earlier-agg": {"doc_count": 3, "inner": {"after_key": {"f": "b"}, "buckets": [{"key": {"f": "b"}, "doc_count": 3}]}}}}).encode("utf-8")
+_PRIME_LAST = json.dumps({"took": 1, "timed_out": False, "hits": {"total": {"value": 3, "relation": "eq"}, "hits": []},
+                          "aggregations": {"earlier-agg": {"doc_count": 3, "inner": {"buckets": []}}}}).encode("utf-8")
+
+
 def _run_composite(case, obs):
     texts = case["resp"]
     fulls = [_load(t) for t in texts]
@@ -694,10 +700,16 @@ def _run_composite(case, obs):
         return
     keys = [_get(f, akp) for f in fulls]
 
+    # One runner object per operation type serves every task and client of a worker: in a class of cases the extractor (and below the
+    # Query runner) has served a composite aggregation with another name and nesting before - and all pages go through the same object.
+    extractor = runner.CompositeAggExtractor()
+    if case.get("primed"):
+        extractor(io.BytesIO(_PRIME_RESPONSE), False, ["earlier-agg", "inner"], None)
+        obs.cls("composite:runner-served-another-aggregation-before")
     for k, (t, f) in enumerate(zip(texts, fulls)):
         present, want = keys[k]
         for ht in [None] + ([case["hits_total"]] if case.get("hits_total") is not None else []):
-            parsed = runner.CompositeAggExtractor()(io.BytesIO(t.encode("utf-8")), pit, list(case["path"]), ht)
+            parsed = extractor(io.BytesIO(t.encode("utf-8")), pit, list(case["path"]), ht)
             _check_extracted_common(obs, "composite", parsed, f, pit, ht)
             got = parsed.get("after_key")
             if not _same(got, want if present else None):
@@ -715,11 +727,16 @@ def _run_composite(case, obs):
     if pit:
         params["with-point-in-time-from"] = "open-pit"
 
+    query = runner.Query()
+    if case.get("primed"):
+        prime_body = {"size": 0, "aggs": {"earlier-agg": {"filter": {"match_all": {}}, "aggs": {"inner": {"composite": {"sources": [{"f": {"terms": {"field": "f"}}}]}}}}}}
+        _run(query(_Es([_PRIME_RESPONSE, _PRIME_LAST]), {"index": "logs", "operation-type": "composite-agg", "pages": "all", "body": prime_body}))
+
     async def go():
         async with runner.CompositeContext():
             if pit:
                 runner.CompositeContext.put("open-pit", "initial-pit-id")
-            return await runner.Query()(es, params)
+            return await query(es, params)
 
     try:
         r = _run(go())
